@@ -551,7 +551,7 @@ func c03API(c *Ctx, pf *paramFx) {
 // ---------------------------------------------------------------- C07
 
 func runC07(c *Ctx) {
-	c.Rule("rules with one or two path variables (top-level and nested fields, string / int / bool / enum / float typed, with and without a trailing wildcard, body '', '*' and a body field) x captured values incl. each type's zero value x competing values for the same field in the query string (proto and JSON name, one or several occurrences, before and after other parameters) and / or the body (JSON and protobuf): the handler must see the captured value. Every case is also run through the Lean model of the application order. Non-trivial: at least one competing value; distinct by input.")
+	c.Rule("rules with one or two path variables (top-level and nested fields, string / int / bool / enum / float typed, with and without a trailing wildcard, body '', '*' and a body field, bound to one HTTP method or to every method through custom kind '*') x captured values incl. each type's zero value x competing values for the same field in the query string (proto and JSON name, one or several occurrences, before and after other parameters) and / or the body (JSON and protobuf): the handler must see the captured value. Every case is also run through the Lean model of the application order. Non-trivial: at least one competing value; distinct by input.")
 	rules := map[string]*annotations.HttpRule{
 		"S":   getRule("/c07/s/{name}"),
 		"SW":  getRule("/c07/sw/{name}/x/*"),
@@ -563,6 +563,9 @@ func runC07(c *Ctx) {
 		"BF":  postRule("/c07/bf/{nested.s}/{nested.n}", "nested"),
 		"BW":  postRule("/c07/bw/{other_name}/**", "*"),
 		"TWO": getRule("/c07/two/{name}/*/{other_name}"),
+		// bound for every HTTP method (custom kind "*"): the lookup ends in methodAll, not in methods[verb]
+		"K":  customRule("*", "/c07/k/{name}", ""),
+		"KB": customRule("*", "/c07/kb/{name}/{i32}", "*"),
 	}
 	pf, err := newParamFx(rules)
 	if err != nil {
@@ -584,7 +587,11 @@ func runC07(c *Ctx) {
 	for i := 0; i < c.N(400, 8000); i++ {
 		var tc tcase
 		sv, sv2, iv := strVals[c.Rng.Intn(len(strVals))], strVals[c.Rng.Intn(len(strVals))], intVals[c.Rng.Intn(len(intVals))]
-		switch c.Rng.Intn(10) {
+		switch c.Rng.Intn(12) {
+		case 10:
+			tc = tcase{rule: "K", path: "/c07/k/" + sv, binds: []binding{{"name", "name", sv}}}
+		case 11:
+			tc = tcase{rule: "KB", path: "/c07/kb/" + sv + "/" + iv, binds: []binding{{"name", "name", sv}, {"i32", "i32", iv}}, body: true}
 		case 0:
 			tc = tcase{rule: "S", path: "/c07/s/" + sv, binds: []binding{{"name", "name", sv}}}
 		case 1:
